@@ -130,6 +130,8 @@ type wrun struct {
 	fatal    string
 	// features of the scenario (class label)
 	torn, kfWindow, quitQueue, enqAfterTorn, quitInFlush, quitSem bool
+	preCancelled, cancelInWrite, armFailed                        bool
+	armSeen                                                       int
 	tickSinceTorn                                                 bool
 }
 
@@ -161,11 +163,18 @@ func (ru *wrun) finish() {
 	}
 }
 
-func (ru *wrun) start(id int) bool {
+func (ru *wrun) start(id int, preCancel bool) bool {
 	if id < 1 || id > len(ru.conf.lens) || ru.callers[id] != nil {
 		return false
 	}
 	ctx, cancel := context.WithCancel(context.Background())
+	if preCancel {
+		// the caller's context has ENDED when it reaches writeContext's first select (in Conn.exec: between the
+		// up-front ctx.Err() check and the select). With the semaphore free / the flusher at its select Go's select
+		// may take either ready case; both continuations are behaviours of the machine (submit; cancel | enter/enqueue).
+		cancel()
+		ru.preCancelled = true
+	}
 	r := &wcaller{id: id, gidReady: make(chan struct{}), ctx: ctx, cancel: cancel, done: make(chan struct{})}
 	ru.callers[id] = r
 	ru.order = append(ru.order, r)
@@ -215,6 +224,19 @@ func (ru *wrun) exec(tok string) bool {
 		}
 		ru.trace = append(ru.trace, "t")
 		ru.tickSinceTorn = true
+	case tok == "D":
+		// the next SetWriteDeadline fails: the direct writer returns (0, err) from inside the critical section, the
+		// coalescer's flush hands (0, err) to every buffer of the batch - no Write enters the transport
+		ru.g.mu.Lock()
+		pending := ru.g.failArm > 0
+		if !pending {
+			ru.g.failArm = 1
+		}
+		ru.g.mu.Unlock()
+		if pending || !ru.conf.wt {
+			return false
+		}
+		ru.trace = append(ru.trace, "D")
 	case tok == "Q":
 		if ru.qseen {
 			return false
@@ -244,13 +266,20 @@ func (ru *wrun) exec(tok string) bool {
 		ru.g.Close()
 		ru.trace = append(ru.trace, "X")
 	case tok[0] == 's':
-		if !ru.start(num(tok[1:])) {
+		if !ru.start(num(tok[1:]), false) {
+			return false
+		}
+	case tok[0] == 'S':
+		if !ru.start(num(tok[1:]), true) {
 			return false
 		}
 	case tok[0] == 'c':
 		r := ru.callers[num(tok[1:])]
 		if r == nil {
 			return false
+		}
+		if r.state != "D" && (r.entered || r.state == "G") {
+			ru.cancelInWrite = true
 		}
 		r.cancel()
 	case tok[0] == 'p':
@@ -325,6 +354,45 @@ func (ru *wrun) settle() {
 			ru.kfWindow = true
 		}
 	}
+	report := func(r *wcaller) {
+		r.reported = true
+		cls := "err"
+		switch {
+		case r.err == nil:
+			cls = "ok"
+		case strings.HasPrefix(r.err.Error(), "crash:"):
+			cls = "crash"
+		case errors.Is(r.err, context.Canceled):
+			cls = "cancel"
+		case r.err == io.EOF || r.err == gocql.ErrConnectionClosed:
+			cls = "quit"
+		}
+		ru.events = append(ru.events, fmt.Sprintf("+r%d:%d:%s", r.id, r.n, cls))
+		ru.trace = append(ru.trace, fmt.Sprintf("r%d:%d:%s", r.id, r.n, cls))
+	}
+	// 0. SetWriteDeadline failures, and the callers that got that error: they held the semaphore / were the flusher's
+	// batch BEFORE whatever entered the transport afterwards
+	ru.g.mu.Lock()
+	af := ru.g.armFails
+	ru.g.mu.Unlock()
+	for ; ru.armSeen < af; ru.armSeen++ {
+		ru.armFailed = true
+		ru.events = append(ru.events, "+d")
+		ru.trace = append(ru.trace, "d")
+	}
+	for _, r := range ru.order {
+		if r.reported {
+			continue
+		}
+		select {
+		case <-r.done:
+			if errors.Is(r.err, errArm) {
+				r.state = "D"
+				report(r)
+			}
+		default:
+		}
+	}
 	// 1. Writes that entered the transport (held), and Writes the closed socket refused at once
 	held := ru.g.heldSnapshot()
 	sort.Slice(held, func(i, j int) bool { return held[i].idx < held[j].idx })
@@ -384,20 +452,7 @@ func (ru *wrun) settle() {
 		if r.state != "D" || r.reported {
 			continue
 		}
-		r.reported = true
-		cls := "err"
-		switch {
-		case r.err == nil:
-			cls = "ok"
-		case strings.HasPrefix(r.err.Error(), "crash:"):
-			cls = "crash"
-		case errors.Is(r.err, context.Canceled):
-			cls = "cancel"
-		case r.err == io.EOF || r.err == gocql.ErrConnectionClosed:
-			cls = "quit"
-		}
-		ru.events = append(ru.events, fmt.Sprintf("+r%d:%d:%s", r.id, r.n, cls))
-		ru.trace = append(ru.trace, fmt.Sprintf("r%d:%d:%s", r.id, r.n, cls))
+		report(r)
 	}
 }
 
@@ -461,7 +516,8 @@ func (ru *wrun) class() string {
 		on bool
 		s  string
 	}{{ru.torn, "torn"}, {ru.kfWindow, "KF-C07-1-window"}, {ru.quitQueue, "quit-with-queue"}, {ru.enqAfterTorn, "queued-between-torn-and-quit"},
-		{ru.quitInFlush, "quit-inside-write"}, {ru.quitSem, "quit-with-semaphore-waiters"}} {
+		{ru.quitInFlush, "quit-inside-write"}, {ru.quitSem, "quit-with-semaphore-waiters"},
+		{ru.preCancelled, "ctx-ended-before-select"}, {ru.cancelInWrite, "cancel-inside-write"}, {ru.armFailed, "deadline-arming-failed"}} {
 		if f.on {
 			cls += "/" + f.s
 		}
@@ -538,6 +594,13 @@ func (ru *wrun) serve() {
 	}
 }
 
+// flushIfQueued fires the flush timer when the coalescer has requests enqueued and no Write inside the transport.
+func (ru *wrun) flushIfQueued(step func(string)) {
+	if ru.conf.coal && ru.fatal == "" && !ru.goneSeen && ru.queued() > 0 && len(ru.g.heldSnapshot()) == 0 {
+		step("t")
+	}
+}
+
 // wind up: quit (if not yet), whatever then enters the transport is served whole (a healthy socket), socket closed.
 func (ru *wrun) windUp() {
 	if !ru.qseen {
@@ -608,6 +671,94 @@ func wTemplate(conf wconf, kind, cut, mid int, ek string) wcase {
 		if cut > 0 && !conf.coal {
 			step(fmt.Sprintf("p1:%d", cut))
 		}
+	case 3:
+		// `mid` callers write their whole frames one after the other; then caller mid+1 arrives with its context ALREADY
+		// ENDED while the semaphore is free / the flusher is at its select (either select case may win: it returns
+		// (0, ctx error) without a byte, or it writes like anybody else); the remaining callers follow while whatever
+		// Write is then inside the transport is held after `cut` bytes; everything is served (newest Write first).
+		for i := 1; i <= mid; i++ {
+			step(fmt.Sprintf("s%d", i))
+			ru.flushIfQueued(step)
+			ru.serve()
+		}
+		step(fmt.Sprintf("S%d", mid+1))
+		for i := mid + 2; i <= 3; i++ {
+			step(fmt.Sprintf("s%d", i))
+			ru.flushIfQueued(step)
+			if held := ru.g.heldSnapshot(); len(held) > 0 {
+				w := held[0]
+				for _, h := range held {
+					if h.idx < w.idx {
+						w = h
+					}
+				}
+				if k := imin(cut, len(w.p)-1) - w.off; k > 0 && ru.wreq[w] != 0 {
+					step(fmt.Sprintf("p%d:%d", ru.wreq[w], k))
+				}
+			}
+		}
+		ru.flushIfQueued(step)
+		ru.serve()
+		ru.flushIfQueued(step)
+		ru.serve()
+	case 5:
+		// SetWriteDeadline fails (write timeout > 0 only) for the Write of caller `mid`+1 / for the flush that holds the
+		// callers 1..`mid`+1: nothing enters the transport, each of them gets (0, err); the remaining callers follow and
+		// are served whole (cut > 0: the first of them is held after `cut` bytes while the others arrive)
+		if !conf.wt {
+			break
+		}
+		if conf.coal {
+			for i := 1; i <= mid+1; i++ {
+				step(fmt.Sprintf("s%d", i))
+			}
+			step("D")
+			step("t")
+		} else {
+			for i := 1; i <= mid; i++ {
+				step(fmt.Sprintf("s%d", i))
+				ru.serve()
+			}
+			step("D")
+			step(fmt.Sprintf("s%d", mid+1))
+		}
+		for i := mid + 2; i <= 3; i++ {
+			step(fmt.Sprintf("s%d", i))
+			ru.flushIfQueued(step)
+			if w := ru.heldOf(i); w != nil && i == mid+2 && cut > 0 && cut < len(w.p) {
+				step(fmt.Sprintf("p%d:%d", i, cut))
+			}
+		}
+		ru.flushIfQueued(step)
+		ru.serve()
+		ru.flushIfQueued(step)
+		ru.serve()
+	case 4:
+		// caller 1's Write is inside the transport after `cut` bytes; callers 2.. arrive: `mid` of them with their context
+		// already ended (only ctx.Done is ready: they leave at once), the others normally; then EVERY context is cancelled -
+		// of the caller inside the Write (ignored from now on), of those waiting for the semaphore / enqueued behind it;
+		// the Write ends with `ek`.
+		step("s1")
+		ru.flushIfQueued(step)
+		if cut > 0 {
+			step(fmt.Sprintf("p1:%d", cut))
+		}
+		for i := 2; i <= 3; i++ {
+			if i-2 < mid {
+				step(fmt.Sprintf("S%d", i))
+			} else {
+				step(fmt.Sprintf("s%d", i))
+			}
+		}
+		for i := 1; i <= 3; i++ {
+			step(fmt.Sprintf("c%d", i))
+		}
+		if ek == "ok" {
+			step(fmt.Sprintf("p1:%d", conf.lens[0]-cut))
+		}
+		step("e1:" + ek)
+		ru.flushIfQueued(step)
+		ru.serve()
 	}
 	if ru.fatal == "" {
 		ru.windUp()
@@ -648,6 +799,9 @@ func runWSched(r *vh.Rng, conf wconf) wcase {
 			wt  int
 		}
 		var cs []cand
+		ru.g.mu.Lock()
+		armPending := ru.g.failArm > 0
+		ru.g.mu.Unlock()
 		held := ru.g.heldSnapshot()
 		sort.Slice(held, func(i, j int) bool { return held[i].idx < held[j].idx })
 		for _, w := range held {
@@ -683,9 +837,14 @@ func runWSched(r *vh.Rng, conf wconf) wcase {
 			cs = append(cs, cand{fmt.Sprintf("s%d", next), 4})
 		}
 		for _, q := range ru.order {
-			if q.state == "S" || q.state == "E" || (q.state == "R" && !q.entered) {
+			// every cancellation point: parked in the first select, enqueued, in a batch behind the buffer being
+			// written, and while its own frame is inside the transport Write (from then on the context is ignored)
+			if q.state == "S" || q.state == "E" || q.state == "R" || q.state == "G" {
 				cs = append(cs, cand{fmt.Sprintf("c%d", q.id), 1})
 			}
+		}
+		if ru.conf.wt && !ru.xseen && !armPending {
+			cs = append(cs, cand{"D", 1})
 		}
 		if !ru.qseen && stepNo >= quitAt {
 			cs = append(cs, cand{"Q", 3})
